@@ -11,6 +11,7 @@ outcomes (structural value digest, or failure) must agree.
 """
 import copy
 
+import yaml
 import yatiml
 from vlib import docs as D
 from vlib import harness as H
@@ -111,6 +112,9 @@ UNRELATED = [
     {'name': 'ZUnrelatedA', 'kind': 'plain',
      'params': [{'name': 'zunrelated_a_id', 'type': 'int'}]},
     {'name': 'ZUnrelatedB', 'kind': 'enum', 'members': ['zq1', 'zq2']},
+    # a class every mapping - also an empty one - is good for
+    {'name': 'ZUnrelatedC', 'kind': 'plain',
+     'params': [{'name': 'zunrelated_c_id', 'type': 'int', 'default': 0}]},
 ]
 
 
@@ -374,6 +378,8 @@ def shard(ctx):
     lone_class_cases(ctx, rng, ctx.budget(600, 8000))
     no_class_cases(ctx, rng, ctx.budget(1500, 20000))
     bool_union_cases(ctx, rng)
+    twin_key_cases(ctx, rng, ctx.budget(40, 500) // 16 + 1)
+    aliased_scalar_cases(ctx, rng)
     if ctx.shard == 2:
         directed_cases(ctx, rng)
 
@@ -484,7 +490,18 @@ def lone_class_cases(ctx, rng, n):
                 rng, ['ZUnrelatedA', 'ZUnrelatedA', c['name']], n_out)
             wrapped = ['seq', [sub, ['map', [[N_s('zunrelated_a_id'),
                                                ['s', S_INT, '1']]],
-                                     '!ZUnrelatedA']], S_SEQ]
+                                     '!ZUnrelatedA'],
+                               # empty collections that carry the tag of a
+                               # class registered only in the other run
+                               rng.choice([
+                                   ['map', [], '!ZUnrelatedC'],
+                                   ['seq', [], '!ZUnrelatedC'],
+                                   ['map', [[N_s('k'), ['map', [],
+                                                        '!ZUnrelatedC']]],
+                                    S_MAP],
+                                   ['seq', [['map', [], '!ZUnrelatedC'],
+                                            ['map', [], '!ZUnrelatedC']],
+                                    S_SEQ]])], S_SEQ]
             # (under an ordinary key, and under keys named like parts of
             # the constructor's signature, which are extras like any other)
             xkey = rng.choice(['zz_extra_key', 'zz_extra_key', 'self',
@@ -596,6 +613,126 @@ S_INT = 'tag:yaml.org,2002:int'
 S_MAP = 'tag:yaml.org,2002:map'
 
 
+def aliased_scalar_cases(ctx, rng):
+    """One scalar node at two positions of different declared types
+    (bool / enum with a member of that name, str / enum, str / Path, int /
+    Union): the block or flow text with the alias and its re-serialisation
+    as JSON - where the alias is written out, the node tags being the same -
+    must load alike."""
+    T = 'tag:yaml.org,2002:'
+    E = {'name': 'Tri', 'kind': 'enum', 'members': ['true', 'false', 'maybe']}
+    combos = [('bool', ['cls', 'Tri'], ['s', T + 'bool', 'true']),
+              (['cls', 'Tri'], 'bool', ['s', T + 'bool', 'false']),
+              ('str', ['cls', 'Tri'], ['s', T + 'str', 'maybe']),
+              ('str', 'path', ['s', T + 'str', 'a/b']),
+              ('int', ['union', 'int', 'str'], ['s', T + 'int', '3']),
+              (['cls', 'Tri'], ['cls', 'Tri'], ['s', T + 'bool', 'true']),
+              ('any', ['cls', 'Tri'], ['s', T + 'bool', 'true'])]
+    for k, (ta, tb, sc) in enumerate(combos):
+        if not ctx.mine(k):
+            continue
+        P = {'name': 'Pair', 'kind': 'plain',
+             'params': [{'name': 'first', 'type': ta},
+                        {'name': 'second', 'type': tb},
+                        {'name': 'label', 'type': 'str', 'default': ''}]}
+        spec = {'classes': [E, P], 'doc_type': ['cls', 'Pair'],
+                'profile': 'alias-json'}
+        for order in (('first', 'second'), ('second', 'first')):
+            aliased = ['map', [[N_s(order[0]), ['anchor', 'sc', list(sc)]],
+                               [N_s('label'), N_s('x')],
+                               [N_s(order[1]), ['alias', 'sc']]], S_MAP]
+            written = ['map', [[N_s(order[0]), list(sc)],
+                               [N_s('label'), N_s('x')],
+                               [N_s(order[1]), list(sc)]], S_MAP]
+            for style in ('block', 'flow'):
+                try:
+                    ta_ = D.render(aliased, style)
+                    tj = D.render(written, 'json')
+                except (ValueError, RecursionError):
+                    continue
+                load, base, m = load_outcome(spec, tj)
+                if load is None:
+                    ctx.count('load_function_creation_failed')
+                    continue
+                other = H.run_load(load, ta_)
+                ctx.count('aliased_vs_json_pairs')
+                cmp(ctx, 'reserialize_json_writes_alias_out', base, other,
+                    {'alias_json': True},
+                    'JSON %r, with the alias %r' % (tj, ta_))
+
+
+def twin_key_cases(ctx, rng, n):
+    """A class with an underscored parameter and _yatiml_extra (and no
+    seasoning of its keys) whose mapping holds the parameter under BOTH
+    spellings: the underscored key is the attribute, the dashed one an
+    extra attribute like any other, wherever each stands.  Every order of
+    the keys must give the same object (extras compared as a plain
+    mapping: their relative order is the document's)."""
+    import collections
+    import itertools
+    import typing
+
+    def make(pname, ptype, with_opt):
+        ns = {'OrderedDict': collections.OrderedDict, 'T': ptype,
+              'Optional': typing.Optional}
+        src = ('class Limits:\n'
+               '    def __init__(self, name: str, %s: T%s, _yatiml_extra: '
+               '%s) -> None:\n'
+               '        self.args = (name, %s, opt if %s else None)\n'
+               '        self.extra = _yatiml_extra\n' % (
+                   pname, ', opt: int = 7' if with_opt else '',
+                   'Optional[OrderedDict] = None' if with_opt
+                   else 'OrderedDict', pname, with_opt))
+        exec(src, ns)
+        return ns['Limits']
+    for k in range(n):
+        pname = rng.choice(['max_size', 'a_b', 'x_y_z'])
+        ptype, good, other = rng.choice([
+            (int, '3', 'unlimited'), (str, 'abc', '[1, 2]'),
+            (bool, 'true', '5'), (float, '1.5', 'x'),
+            (typing.List[int], '[1]', 'none')])
+        with_opt = rng.random() < 0.5
+        K = make(pname, ptype, with_opt)
+        load = yatiml.load_function(K)
+        entries = ['name: a', '%s: %s' % (pname, good),
+                   '%s: %s' % (pname.replace('_', '-'), other)]
+        if rng.random() < 0.6:
+            entries.append('note: x')
+        outcomes = {}
+        for perm in itertools.permutations(entries):
+            text = '\n'.join(perm) + '\n' if rng.random() < 0.7 else \
+                '{' + ', '.join(perm) + '}\n'
+            try:
+                o = load(text)
+                d = ['ok', repr(o.args), sorted(
+                    (str(a), repr(b)) for a, b in (o.extra or {}).items())]
+            except (yatiml.RecognitionError, yaml.YAMLError) as e:
+                d = ['err', type(e).__name__]
+            outcomes[text] = d
+            ctx.count('compared_permute')
+            ctx.count('twin_spelling_permutations')
+        first_text = next(iter(outcomes))
+        for text, d in outcomes.items():
+            if d != outcomes[first_text]:
+                ctx.violation(
+                    'C13 permute twin-spellings %s-vs-%s' % (
+                        outcomes[first_text][0], d[0]),
+                    'a class with parameter %s and _yatiml_extra: %r gives '
+                    '%s, the same keys in another order %r give %s' % (
+                        pname, first_text, short(outcomes[first_text]), text,
+                        short(d)), {'twin': True, 'seed': rng.getrandbits(1)})
+                break
+        ctx.case(['twin', k, ctx.shard], True)
+
+
 def replay(ctx, case):
+    if case.get('alias_json'):
+        ctx.shard, ctx.nshards = 0, 1
+        aliased_scalar_cases(ctx, None)
+        return
+    if case.get('twin'):
+        import random
+        twin_key_cases(ctx, random.Random(0), 40)
+        return
     run_case(ctx, case['spec'], case['nspec'], case['style'], case['seed'],
              only=case.get('t'))
